@@ -84,7 +84,11 @@ def get_use_tree(
                     new_rename = merged_rename.get(only_name)
                     if new_rename is None:
                         continue
-                    use_dict_mod.rename_map = merged_rename
+                    # Keep the renames of the USE statements seen before
+                    use_dict_mod.rename_map = {
+                        **use_dict_mod.rename_map,
+                        **merged_rename,
+                    }
                     use_dict[use_stmnt.mod_name] = use_dict_mod
                 widened = False
             else:
